@@ -83,8 +83,8 @@ LotCost(Q, x) == IF x.vwf >= 0 THEN x.vwf * Q
                  ELSE FiatIn(Q, x) + (IF x.fee > 0 THEN x.fee * x.price ELSE x.ffee) * Q
 
 \* taxable fiat value of an event (C04): sale value excluding fee; fee value for
-\* fee-only events and transfer fees; fiat value for income
-TaxFiat(Q, x) == CASE IsEarn(x)                          -> FiatIn(Q, x)
+\* fee-only events and transfer fees; fiat value (with the fee paid to receive it) for income
+TaxFiat(Q, x) == CASE IsEarn(x)                          -> LotCost(Q, x)      \* what was received, fee included
                    [] x.cls = "out" /\ x.type = "fee"    -> IF x.vfee >= 0 THEN x.vfee * Q ELSE x.fee * x.price * Q
                    [] x.cls = "out"                      -> IF x.vout >= 0 THEN x.vout * Q ELSE x.amt * x.price * Q
                    [] OTHER                              -> x.fee * x.price * Q
@@ -192,6 +192,7 @@ TakeStep(C, E, A, ls, ln) ==
                      <<"C03.earn_event_has_no_lot", i = 0>>,
                      <<"C03.earn_event_full_amount", ln.amt = x.amt>>,
                      <<"C03.earn_event_zero_cost", ln.cost = 0>>,
+                     <<"C03.earn_event_at_its_full_fiat_value", ln.proc = TaxFiat(C.Q, x)>>,
                      <<"C05.earn_event_is_short_term", ln.long = FALSE>> })
                   ELSE IF i = 0 THEN {"C03.disposal_has_lot"}
                   ELSE Failing({
@@ -381,6 +382,7 @@ ObsFails(C, E, n, m, ls, ln) ==
               expLab == {Labels(fr, FSall, q) : q \in FSwin}
               labN   == (IF windowed THEN {"C10.fraction_counts_reflect_history_up_to_to_date"} ELSE {"C13.fraction_counts_k_of_n"})
                         \cup (IF k < m \/ (to # MaxDay /\ from = MinDay) THEN {"C09.to_date_run_same_fraction_counts"} ELSE {})
+                        \cup (IF from # MinDay THEN {"C02.date_filter_does_not_change_lot_consumption"} ELSE {})    \* (a lot's k/n counts every fraction taken from it)
               f8     == IF SetEq(ln.lab, expLab) THEN {} ELSE labN
               \* sold part of every lot shown: what the fractions shown took from it
               expSold == {<<i, Sum({q \in FSwin : fr[q].lot = i}, LAMBDA q : fr[q].amt)>> : i \in win({j \in A : E[j].cls = "in"})}
